@@ -153,97 +153,116 @@ fn c09_is_valid_label_name_hole4() {
 // ---------------------------------------------------------------------------------------------
 // Desc::new acceptance
 
+// Desc::new: std's slice sort is replaced by its contract (vsup::stub_sort) and format! by its
+// contract / the message stub; names are short concrete or one-character symbolic strings.
+
+fn desc_scenario(fq: &str, help: &str, cname: Option<&str>, vname: Option<&str>) -> bool {
+    let mut consts: HashMap<String, String> = HashMap::new();
+    if let Some(c) = cname {
+        consts.insert(c.to_owned(), "x".to_owned());
+    }
+    let mut vars: Vec<String> = Vec::with_capacity(2);
+    if let Some(v) = vname {
+        vars.push(v.to_owned());
+    }
+    let r = Desc::new(fq.to_owned(), help.to_owned(), vars, consts);
+    let ok = r.is_ok();
+    core::mem::forget(r);
+    ok
+}
+
+//@ id: c09_desc_new_const_var_duplicate
+//@ prop: C09
+//@ tier: quick
+//@ strength: bounded(enumerated: one concrete scenario -- const label "a" and variable label "a")
+//@ fn: desc::Desc::new
+//@ obligation: a label name that occurs both as a constant and as a variable label is rejected (otherwise every sample of the metric carries the label name twice)
+#[kani::proof]
+#[kani::unwind(4)]
+#[kani::stub(alloc::fmt::format, stub_format)]
+#[kani::stub(<[LabelPair]>::sort, stub_sort)]
+fn c09_desc_new_const_var_duplicate() {
+    assert!(!desc_scenario("m", "h", Some("a"), Some("a")), "C09.Desc::new: label name used both as const and as variable label accepted");
+}
+
+//@ id: c09_desc_new_accepts_wellformed
+//@ prop: C09
+//@ tier: quick
+//@ strength: bounded(enumerated: one concrete scenario -- const label "a", variable label "b")
+//@ fn: desc::Desc::new
+//@ obligation: a well-formed descriptor (valid name, non-empty help, distinct valid label names) is accepted
+#[kani::proof]
+#[kani::unwind(4)]
+#[kani::stub(alloc::fmt::format, stub_format)]
+#[kani::stub(<[LabelPair]>::sort, stub_sort)]
+fn c09_desc_new_accepts_wellformed() {
+    assert!(desc_scenario("m", "h", Some("a"), Some("b")), "C09.Desc::new: well-formed descriptor refused");
+}
+
+//@ id: c09_desc_new_rejects_malformed
+//@ prop: C09, C17
+//@ tier: quick
+//@ strength: bounded(enumerated: four concrete scenarios -- empty help, invalid metric name, invalid const label name, invalid variable label name)
+//@ fn: desc::Desc::new
+//@ obligation: empty help, an invalid fully-qualified name, an invalid const label name and an invalid variable label name are each rejected with Err (no panic)
+#[kani::proof]
+#[kani::unwind(4)]
+#[kani::stub(alloc::fmt::format, stub_format)]
+#[kani::stub(<[LabelPair]>::sort, stub_sort)]
+fn c09_desc_new_rejects_malformed() {
+    let which: u8 = kani::any();
+    let ok = match which % 4 {
+        0 => desc_scenario("m", "", None, None),
+        1 => desc_scenario("1m", "h", None, None),
+        2 => desc_scenario("m", "h", Some("9"), None),
+        _ => desc_scenario("m", "h", None, Some("9")),
+    };
+    assert!(!ok, "C09.Desc::new: malformed descriptor accepted");
+}
+
 /// one-character ASCII name with a symbolic character (fixed length 1: string comparisons stay
 /// cheap, and the character ranges over all of ASCII, valid and invalid)
 fn any_name1() -> (String, u8) {
     let b: u8 = kani::any();
     kani::assume(b < 0x80);
-    (unsafe { String::from_utf8_unchecked(vec![b]) }, b)
+    let mut v = Vec::with_capacity(1);
+    v.push(b);
+    (unsafe { String::from_utf8_unchecked(v) }, b)
 }
 fn spec_label1(b: u8) -> bool {
     (b'a' <= b && b <= b'z') || (b'A' <= b && b <= b'Z') || b == b'_'
 }
 
-fn desc_new_accepts(nc: usize, nv: usize) {
+//@ id: c09_desc_new_accepts_iff_spec_c1v1
+//@ prop: C09, C17
+//@ tier: quick
+//@ strength: bounded(1 const label, 1 variable label, fq_name: one-character names ranging over ALL of ASCII), help empty or not
+//@ fn: desc::Desc::new
+//@ obligation: Desc::new returns Ok <=> help non-empty AND fq_name valid AND the const and the variable label name are valid AND they are different names; never panics
+#[kani::proof]
+#[kani::unwind(4)]
+#[kani::stub(alloc::fmt::format, stub_format)]
+#[kani::stub(<[LabelPair]>::sort, stub_sort)]
+fn c09_desc_new_accepts_iff_spec_c1v1() {
     let (fq, fqb) = any_name1();
-    let fq_empty: bool = kani::any();
-    let fq = if fq_empty { String::new() } else { fq };
-    let fq_ok = !fq_empty && (spec_label1(fqb) || fqb == b':');
+    let fq_ok = spec_label1(fqb) || fqb == b':';
     let help_empty: bool = kani::any();
     let help = if help_empty { String::new() } else { "h".to_owned() };
     let (c0, c0b) = any_name1();
-    let (c1, c1b) = any_name1();
     let (v0, v0b) = any_name1();
-    let (v1, v1b) = any_name1();
     let mut consts: HashMap<String, String> = HashMap::new();
-    if nc >= 1 {
-        consts.insert(c0, "x".to_owned());
-    }
-    if nc >= 2 {
-        kani::assume(c1b != c0b); // a map holds a const name once
-        consts.insert(c1, "y".to_owned());
-    }
-    let mut vars: Vec<String> = Vec::new();
-    if nv >= 1 {
-        vars.push(v0);
-    }
-    if nv >= 2 {
-        vars.push(v1);
-    }
-    let mut names_ok = true;
-    if nc >= 1 && !spec_label1(c0b) { names_ok = false; }
-    if nc >= 2 && !spec_label1(c1b) { names_ok = false; }
-    if nv >= 1 && !spec_label1(v0b) { names_ok = false; }
-    if nv >= 2 && !spec_label1(v1b) { names_ok = false; }
-    let mut dup = false;
-    if nv >= 2 && v0b == v1b { dup = true; }
-    if nc >= 1 && nv >= 1 && c0b == v0b { dup = true; }
-    if nc >= 1 && nv >= 2 && c0b == v1b { dup = true; }
-    if nc >= 2 && nv >= 1 && c1b == v0b { dup = true; }
-    if nc >= 2 && nv >= 2 && c1b == v1b { dup = true; }
-    let expect_ok = !help_empty && fq_ok && names_ok && !dup;
+    consts.insert(c0, "x".to_owned());
+    let mut vars: Vec<String> = Vec::with_capacity(2);
+    vars.push(v0);
+    let expect_ok = !help_empty && fq_ok && spec_label1(c0b) && spec_label1(v0b) && c0b != v0b;
     let r = Desc::new(fq, help, vars, consts);
-    match r {
-        Ok(_) => assert!(expect_ok, "C09.Desc::new: accepted although help is empty, or a name is invalid, or a label name occurs twice among const and variable labels"),
-        Err(_) => assert!(!expect_ok, "C09.Desc::new: refused a well-formed descriptor"),
+    let ok = r.is_ok();
+    core::mem::forget(r);
+    if ok {
+        assert!(expect_ok, "C09.Desc::new: accepted although help is empty, or a name is invalid, or the same label name is used as const and as variable label");
+    } else {
+        assert!(!expect_ok, "C09.Desc::new: refused a well-formed descriptor");
     }
     kani::cover!(expect_ok);
-    kani::cover!(!expect_ok);
-}
-
-//@ id: c09_desc_new_accepts_c1v1
-//@ prop: C09, C17
-//@ tier: quick
-//@ strength: bounded(1 const label, 1 variable label, one-character names over all of ASCII, fq_name empty or one character, help empty or not), every map iteration order
-//@ fn: desc::Desc::new
-//@ obligation: Desc::new returns Ok <=> help non-empty AND fq_name valid AND every const and variable label name valid AND no label name occurs twice among const and variable labels together; never panics
-#[kani::proof]
-#[kani::unwind(5)]
-#[kani::stub(alloc::fmt::format, stub_format)]
-fn c09_desc_new_accepts_c1v1() {
-    desc_new_accepts(1, 1);
-}
-
-//@ id: c09_desc_new_accepts_c2v2
-//@ prop: C09, C17
-//@ tier: quick
-//@ strength: bounded(2 const labels, 2 variable labels, one-character names over all of ASCII), every map iteration order
-//@ fn: desc::Desc::new
-//@ obligation: Desc::new returns Ok <=> help non-empty AND fq_name valid AND every label name valid AND no label name occurs twice among const and variable labels together; never panics
-#[kani::proof]
-#[kani::unwind(6)]
-#[kani::stub(alloc::fmt::format, stub_format)]
-fn c09_desc_new_accepts_c2v2() {
-    desc_new_accepts(2, 2);
-}
-
-#[kani::proof]
-#[kani::unwind(6)]
-#[kani::stub(alloc::fmt::format, stub_format)]
-fn tmp_concrete_probe() {
-    let mut consts: HashMap<String, String> = HashMap::new();
-    consts.insert("a".to_owned(), "x".to_owned());
-    consts.insert("b".to_owned(), "y".to_owned());
-    let r = Desc::new("m".to_owned(), "h".to_owned(), vec!["a".to_owned(), "c".to_owned()], consts);
-    assert!(r.is_err());
+    kani::cover!(!expect_ok && !help_empty && fq_ok);
 }
